@@ -101,7 +101,30 @@ Inductive keyf :=
 | KAttrMod (n m : Z)         (* lambda a: a.a<n> % m   (m > 0) *)
 | KId                        (* lambda a: a.unique_id *)
 | KIdMod (m : Z)             (* lambda a: a.unique_id % m *)
-| KCls.                      (* lambda a: index of type(a) *)
+| KCls                       (* lambda a: index of type(a) *)
+| KName (n : Z).             (* lambda a: NAMES[a.a<n> % 10] : a STRING key, compared lexicographically *)
+
+(* strings are lists of character codes; the driver's table NAMES *)
+Definition names : list (list Z) :=
+  [[]; [97]; [97; 98]; [97; 98; 99]; [98]; [98; 97]; [66]; [97; 97]; [122]; [90; 122]].
+(*  ""   "a"    "ab"       "abc"       "b"    "ba"     "B"    "aa"      "z"     "Zz"  *)
+Definition lex_leb_step (c d : Z) (rest : bool) : bool := (c <? d) || ((c =? d) && rest).
+(* Python's str <= str *)
+Fixpoint lex_leb (a b : list Z) : bool :=
+  match a, b with
+  | [], _ => true
+  | _ :: _, [] => false
+  | c :: t, d :: u => lex_leb_step c d (lex_leb t u)
+  end.
+(* order-preserving code of a string of at most L characters with codes in 1..127 (proved in the Proofs file):
+   pad with 0 to length L and read in base 128 *)
+Fixpoint pw (L : nat) : Z := match L with O => 1 | S L' => 128 * pw L' end.
+Fixpoint enc_str (L : nat) (l : list Z) : Z :=
+  match L with
+  | O => 0
+  | S L' => match l with [] => 0 | c :: t => c * pw L' + enc_str L' t end
+  end.
+Definition name_key (v : Z) : Z := enc_str 3 (nth (Z.to_nat (v mod 10)) names []).
 
 Definition eval_key (t : table) (k : keyf) (a : id) : option Z :=
   match k with
@@ -111,6 +134,7 @@ Definition eval_key (t : table) (k : keyf) (a : id) : option Z :=
   | KId => Some a
   | KIdMod m => Some (a mod m)
   | KCls => cls_of t a
+  | KName n => match attr_of t a n with Some v => Some (name_key v) | None => None end
   end.
 
 Inductive mapf :=
@@ -291,6 +315,7 @@ Inductive op :=
 | Shuffle (s : Z) (outcome : list id) (inplace : bool) (d : Z)
 | GroupBy (s : Z) (k : keyf) (rt : bool)             (* result_type: true = "agentset", false = "list" *)
 | GroupGet (s : Z) (k : keyf) (kv : Z) (d : Z)      (* s.groupby(k).groups[kv] *)
+| GroupLookup (s : Z) (k : keyf) (kv : Z) (rt : bool)   (* list(s.groupby(k, result_type).groups[kv]) *)
 | Get (s : Z) (names : list Z) (single : bool) (mode dflt : Z)
 | SetAttr (s : Z) (n v : Z)
 | Agg (s : Z) (n : Z) (f : aggf)
@@ -500,6 +525,22 @@ Definition step (st : state) (o : op) : state * result :=
               match assoc kv (groupby_members (key_or0 t k) m) with
               | None => (st, RErr E_KEY)
               | Some r => (store st d r, ROk [])
+              end
+          end
+      end
+  | GroupLookup s k kv rt =>
+      match getm s with
+      | None => (st, RSkip)
+      | Some m =>
+          match all_some (eval_key t k) m with
+          | None => (st, RErr E_ATTR)
+          | Some _ =>
+              match assoc kv (groupby_members (key_or0 t k) m) with
+              | Some r => (st, ROk (zlen r :: r))
+              | None =>
+                  (* "agentset": a plain dict -> KeyError.  "list": GroupBy keeps the defaultdict(list), which
+                     silently creates (and returns) an empty group *)
+                  if rt then (st, RErr E_KEY) else (st, ROk [0])
               end
           end
       end
